@@ -2,6 +2,12 @@
 // a pool. A server sends a burst of keep-alive and ping packets with distinct payloads; every answer must carry
 // the payload of the packet it answers, in order (bytes of one packet must not appear in another), and the
 // race detector must stay silent.
+//
+// Rich scripts (half of the sessions) add what a burst of 8- and 4-byte packets never does: runs of packets inside a
+// bundle (the bot holds them, and their buffers, until the closing delimiter has arrived while its reader goes on
+// taking buffers from the pool), cookies stored in the bot (1..5000 bytes, kept while thousands of packets pass) and
+// asked for again later - the answer carries the key and the bytes last stored under it -, and packets nobody
+// handles, of 0..20000 bytes, in between (so that the pool's buffers have all sizes).
 package main
 
 import (
@@ -10,6 +16,7 @@ import (
 	"fmt"
 	"net"
 	"sync"
+	"sync/atomic"
 	"time"
 
 	"github.com/Tnze/go-mc/bot"
@@ -19,6 +26,7 @@ import (
 	pk "github.com/Tnze/go-mc/net/packet"
 	"github.com/Tnze/go-mc/net/queue"
 
+	"verif/ref/refwire"
 	"verif/vm"
 )
 
@@ -31,7 +39,133 @@ func (d echoDialer) DialMCContext(ctx context.Context, addr string) (*mcnet.Conn
 }
 
 func botEcho(c *vm.Ctx, r *vm.Rand) {
-	botEchoSession(c, r.Uint64(), r.Range(200, 3000), []int{-1, 0, 64}[r.Intn(3)], r.Bool(), 1)
+	botEchoSession(c, r.Uint64(), r.Range(200, 3000), []int{-1, 0, 64}[r.Intn(3)], r.Bool(), 1, r.Bool())
+}
+
+// echoStep is one step of the scripted server.
+type echoStep struct {
+	kind    uint8
+	val     uint64 // keep-alive, ping
+	key     string // cookies
+	payload []byte // store cookie, filler
+}
+
+const (
+	ekKeepAlive     = iota
+	ekPing          // answered with the same 4 bytes
+	ekStoreCookie   // not answered; the bot keeps the payload under the key
+	ekCookieRequest // answered with the key and what was stored under it last (or "nothing")
+	ekFiller        // a packet nobody handles
+	ekBundle        // bundle delimiter (opens or closes a bundle)
+)
+
+// echoAnswer is what the server reads back (payload as a string: the struct is comparable).
+type echoAnswer struct {
+	kind      uint8
+	val       uint64
+	key       string
+	has       bool
+	payload   string
+	malformed bool
+}
+
+func (a echoAnswer) String() string {
+	switch a.kind {
+	case ekKeepAlive:
+		return fmt.Sprintf("keep-alive %#x", a.val)
+	case ekPing:
+		return fmt.Sprintf("pong %#x", a.val)
+	}
+	return fmt.Sprintf("cookie response key=%q has=%v %d bytes hash=%x malformed=%v", a.key, a.has, len(a.payload), vm.Hash64([]byte(a.payload)), a.malformed)
+}
+
+// echoScript derives the steps from the seed, and the answers a bot must give in this order.
+func echoScript(seed uint64, n int, rich bool) (script []echoStep, want []echoAnswer, bundledAnswers, cookieEchoes, fillers int) {
+	r := vm.NewRand(seed)
+	if !rich {
+		for i := 0; i < n; i++ {
+			st := echoStep{kind: ekKeepAlive, val: r.Uint64()}
+			if r.Intn(4) == 0 {
+				st.kind = ekPing
+				st.val &= 0xffffffff
+			}
+			script = append(script, st)
+			want = append(want, echoAnswer{kind: st.kind, val: st.val})
+		}
+		return
+	}
+	cookies := map[string][]byte{}
+	inBundle, left, answersInBundle := false, 0, 0
+	for i := 0; i < n; i++ {
+		var st echoStep
+		switch k := r.Intn(16); {
+		case k == 0 || k == 1:
+			st = echoStep{kind: ekStoreCookie, key: fmt.Sprintf("verif:cookie_%d", r.Intn(6)), payload: r.Bytes([]int{1, 8, 100, 127, 128, 129, 1000, 5000}[r.Intn(8)])}
+			cookies[st.key] = st.payload
+		case k == 2 || k == 3:
+			st = echoStep{kind: ekCookieRequest, key: fmt.Sprintf("verif:cookie_%d", r.Intn(7))}
+			stored, has := cookies[st.key]
+			want = append(want, echoAnswer{kind: ekCookieRequest, key: st.key, has: has, payload: string(stored)})
+			if has {
+				cookieEchoes++
+			}
+		case k == 4:
+			st = echoStep{kind: ekFiller, payload: r.Bytes([]int{0, 3, 8, 200, 3000, 20000}[r.Intn(6)])}
+			fillers++
+		case k == 5 && !inBundle:
+			script = append(script, echoStep{kind: ekBundle})
+			inBundle, left, answersInBundle = true, r.Range(1, 40), 0
+			fallthrough
+		default:
+			st = echoStep{kind: ekKeepAlive, val: r.Uint64()}
+			if r.Intn(4) == 0 {
+				st.kind = ekPing
+				st.val &= 0xffffffff
+			}
+			want = append(want, echoAnswer{kind: st.kind, val: st.val})
+		}
+		script = append(script, st)
+		if inBundle {
+			if st.kind != ekStoreCookie && st.kind != ekFiller {
+				answersInBundle++
+			}
+			if left--; left <= 0 || i == n-1 {
+				script = append(script, echoStep{kind: ekBundle})
+				inBundle = false
+				if answersInBundle >= 2 {
+					bundledAnswers += answersInBundle
+				}
+			}
+		}
+	}
+	if len(want) == 0 {
+		script = append(script, echoStep{kind: ekKeepAlive, val: 1})
+		want = append(want, echoAnswer{kind: ekKeepAlive, val: 1})
+	}
+	return
+}
+
+// parseCookieResponse reads identifier, presence flag and payload as the protocol lays them out.
+func parseCookieResponse(d []byte) echoAnswer {
+	bad := echoAnswer{kind: ekCookieRequest, malformed: true, payload: string(d)}
+	kl, n, err := refwire.DecVarInt(d)
+	if err != nil || kl < 0 || int(kl) > len(d)-n || len(d)-n-int(kl) < 1 {
+		return bad
+	}
+	a := echoAnswer{kind: ekCookieRequest, key: string(d[n : n+int(kl)])}
+	rest := d[n+int(kl):]
+	switch {
+	case rest[0] == 0 && len(rest) == 1:
+		return a
+	case rest[0] != 1:
+		return bad
+	}
+	pl, m, err := refwire.DecVarInt(rest[1:])
+	if err != nil || int(pl) != len(rest)-1-m {
+		return bad
+	}
+	a.has, a.payload = true, string(rest[1+m:])
+	return a
 }
 
 // botEchoThresholds: no compression; everything compressed (0, 3); only the keep-alives (8 data bytes) compressed and
@@ -49,10 +183,11 @@ func botEchoParallel(c *vm.Ctx, r *vm.Rand) {
 		seed          uint64
 		n, threshold  int
 		channelQueues bool
+		rich          bool
 	}
 	ps := make([]params, k)
 	for i := range ps {
-		ps[i] = params{r.Uint64(), r.Range(100, 600), botEchoThresholds[(first+i)%len(botEchoThresholds)], r.Bool()}
+		ps[i] = params{r.Uint64(), r.Range(100, 600), botEchoThresholds[(first+i)%len(botEchoThresholds)], r.Bool(), i%2 == 1}
 	}
 	oks := make([]bool, k)
 	var wg sync.WaitGroup
@@ -60,7 +195,7 @@ func botEchoParallel(c *vm.Ctx, r *vm.Rand) {
 		wg.Add(1)
 		go func(i int) {
 			defer wg.Done()
-			oks[i] = botEchoSession(c, ps[i].seed, ps[i].n, ps[i].threshold, ps[i].channelQueues, k)
+			oks[i] = botEchoSession(c, ps[i].seed, ps[i].n, ps[i].threshold, ps[i].channelQueues, k, ps[i].rich)
 		}(i)
 	}
 	wg.Wait()
@@ -73,23 +208,15 @@ func botEchoParallel(c *vm.Ctx, r *vm.Rand) {
 }
 
 // botEchoSession runs one bot against one scripted server; alongside is the number of sessions alive at the same
-// time (this one included). It reports whether every answer was exact.
-func botEchoSession(c *vm.Ctx, seed uint64, n, threshold int, channelQueues bool, alongside int) bool {
-	r := vm.NewRand(seed)
-	type sent struct {
-		ping bool
-		val  uint64
-	}
-	script := make([]sent, n)
-	for i := range script {
-		script[i] = sent{ping: r.Intn(4) == 0, val: r.Uint64()}
-		if script[i].ping {
-			script[i].val &= 0xffffffff
-		}
-	}
+// time (this one included); rich selects the script with bundles, cookies and fillers. It reports whether every
+// answer was exact.
+func botEchoSession(c *vm.Ctx, seed uint64, n, threshold int, channelQueues bool, alongside int, rich bool) bool {
+	script, want, bundledAnswers, cookieEchoes, fillers := echoScript(seed, n, rich)
 	var mu sync.Mutex
-	var answers []sent
+	var answers []echoAnswer
 	serverDone := make(chan struct{})
+	gameDone := make(chan struct{}) // closed when the bot's JoinServer/HandleGame has returned
+	var waitedInVain atomic.Bool    // the 20 s bound on the wait for the last answers fired while the bot was still handling packets
 	serve := func(raw net.Conn) {
 		defer close(serverDone)
 		defer raw.Close()
@@ -119,22 +246,25 @@ func botEchoSession(c *vm.Ctx, seed uint64, n, threshold int, channelQueues bool
 				if conn.ReadPacket(&q) != nil {
 					return
 				}
+				var a *echoAnswer
 				switch packetid.ServerboundPacketID(q.ID) {
 				case packetid.ServerboundKeepAlive:
 					if len(q.Data) == 8 {
-						mu.Lock()
-						answers = append(answers, sent{false, binary.BigEndian.Uint64(q.Data)})
-						mu.Unlock()
+						a = &echoAnswer{kind: ekKeepAlive, val: binary.BigEndian.Uint64(q.Data)}
 					}
 				case packetid.ServerboundPong:
 					if len(q.Data) == 4 {
-						mu.Lock()
-						answers = append(answers, sent{true, uint64(binary.BigEndian.Uint32(q.Data))})
-						mu.Unlock()
+						a = &echoAnswer{kind: ekPing, val: uint64(binary.BigEndian.Uint32(q.Data))}
 					}
+				case packetid.ServerboundCookieResponse:
+					r := parseCookieResponse(q.Data)
+					a = &r
 				}
 				mu.Lock()
-				done := len(answers) >= n
+				if a != nil {
+					answers = append(answers, *a)
+				}
+				done := len(answers) >= len(want)
 				mu.Unlock()
 				if done {
 					return
@@ -143,10 +273,19 @@ func botEchoSession(c *vm.Ctx, seed uint64, n, threshold int, channelQueues bool
 		}()
 		for _, s := range script {
 			var err error
-			if s.ping {
+			switch s.kind {
+			case ekPing:
 				err = conn.WritePacket(pk.Marshal(packetid.ClientboundPing, pk.Int(int32(uint32(s.val)))))
-			} else {
+			case ekKeepAlive:
 				err = conn.WritePacket(pk.Marshal(packetid.ClientboundKeepAlive, pk.Long(int64(s.val))))
+			case ekStoreCookie:
+				err = conn.WritePacket(pk.Marshal(packetid.ClientboundStoreCookie, pk.Identifier(s.key), pk.ByteArray(s.payload)))
+			case ekCookieRequest:
+				err = conn.WritePacket(pk.Marshal(packetid.ClientboundCookieRequest, pk.Identifier(s.key)))
+			case ekFiller:
+				err = conn.WritePacket(pk.Packet{ID: int32(packetid.ClientboundCustomPayload), Data: s.payload})
+			case ekBundle:
+				err = conn.WritePacket(pk.Packet{ID: int32(packetid.BundleDelimiter)})
 			}
 			if err != nil {
 				return
@@ -155,6 +294,13 @@ func botEchoSession(c *vm.Ctx, seed uint64, n, threshold int, channelQueues bool
 		select {
 		case <-readerDone:
 		case <-time.After(20 * time.Second):
+			// time only bounds the wait. A bot whose game loop has ended will never answer (what is missing is missing
+			// for good); one that is still running may just be slow
+			select {
+			case <-gameDone:
+			default:
+				waitedInVain.Store(true)
+			}
 		}
 	}
 	cl := bot.NewClient()
@@ -165,11 +311,11 @@ func botEchoSession(c *vm.Ctx, seed uint64, n, threshold int, channelQueues bool
 		opts.QueueWrite = queue.NewChannelQueue[pk.Packet](8192)
 	}
 	wit := func() any {
-		return map[string]any{"script_seed": seed, "packets": n, "threshold": threshold, "channel_queues": channelQueues, "sessions_alive_at_once": alongside}
+		return map[string]any{"script_seed": seed, "packets": n, "threshold": threshold, "channel_queues": channelQueues, "sessions_alive_at_once": alongside,
+			"rich_script_with_bundles_cookies_fillers": rich, "steps": len(script), "answers_expected": len(want)}
 	}
 	c.Inflight(fmt.Sprintf("bot echo %v", wit()))
 	var joinErr error
-	gameDone := make(chan struct{})
 	go func() {
 		defer close(gameDone)
 		c.Guard("bot-echo", wit, func() {
@@ -194,16 +340,32 @@ func botEchoSession(c *vm.Ctx, seed uint64, n, threshold int, channelQueues bool
 	}
 	mu.Lock()
 	defer mu.Unlock()
-	if len(answers) != n {
-		c.Violation("bot-echo/answer-count", fmt.Sprintf("%d keep-alive/ping packets were sent, %d answers came back", n, len(answers)), wit())
+	if len(answers) != len(want) && waitedInVain.Load() {
+		c.Inconclusive(fmt.Sprintf("bot echo: %d of %d answers had arrived 20 s after the last packet went out and the bot was still running (%v)", len(answers), len(want), wit()))
 		return false
 	}
-	for i := range script {
-		if answers[i] != script[i] {
+	if len(answers) != len(want) {
+		c.Violation("bot-echo/answer-count", fmt.Sprintf("%d packets that ask for an answer were sent, %d answers came back", len(want), len(answers)), wit())
+		return false
+	}
+	for i := range want {
+		if answers[i] != want[i] {
 			w := wit().(map[string]any)
-			w["index"], w["sent"], w["answered"] = i, fmt.Sprintf("%+v", script[i]), fmt.Sprintf("%+v", answers[i])
-			c.Violation("bot-echo/answer-carries-other-bytes", fmt.Sprintf("answer %d carries %#x (ping=%v), the packet it answers carried %#x (ping=%v)", i, answers[i].val, answers[i].ping, script[i].val, script[i].ping), w)
+			w["index"], w["expected"], w["answered"] = i, want[i].String(), answers[i].String()
+			c.Violation("bot-echo/answer-carries-other-bytes", fmt.Sprintf("answer %d is [%v], the packet it answers asks for [%v]", i, answers[i], want[i]), w)
 			return false
+		}
+	}
+	if rich {
+		c.Cover("bot-echo.rich.answers-exact")
+		if bundledAnswers > 0 {
+			c.Cover("bot-echo.rich.answers-to-bundled-packets-exact")
+		}
+		if cookieEchoes > 0 {
+			c.Cover("bot-echo.rich.stored-cookies-came-back-exact")
+		}
+		if fillers > 0 {
+			c.Cover("bot-echo.rich.unhandled-packets-of-other-sizes-between")
 		}
 	}
 	c.Cover("bot-echo.answers-exact")
